@@ -10,6 +10,14 @@ Acts(s) == {[name |-> n, sender |-> "bob", spender |-> "alice", token |-> t, amt
            \* the service's own address named as spender by an outside caller
            \cup {[name |-> n, sender |-> "bob", spender |-> "gs", token |-> t, amt |-> 1, auth |-> au] :
                 n \in {"PayGas", "AddGas"}, t \in Tokens, au \in {{}, {"mallory"}}}
+           \* aliased parties: the sender pays for itself; the service's own address as sender AND spender
+           \cup {[name |-> n, sender |-> "alice", spender |-> "alice", token |-> t, amt |-> 1, auth |-> au] :
+                n \in {"PayGas", "AddGas"}, t \in Tokens, au \in {{}, {"alice"}, {"bob"}, {"owner0"}}}
+           \cup {[name |-> n, sender |-> "gs", spender |-> "gs", token |-> t, amt |-> 1, auth |-> au] :
+                n \in {"PayGas", "AddGas"}, t \in Tokens, au \in {{}, {"mallory"}}}
+           \* `scoped`: the spender signed only a bare token transfer to the service, not this call
+           \cup {[name |-> n, sender |-> sd, spender |-> "alice", token |-> t, amt |-> 1, auth |-> {}, scoped |-> {"alice"}] :
+                n \in {"PayGas", "AddGas"}, sd \in {"alice", "bob"}, t \in Tokens}
 InitState == [bal |-> [t \in Tokens |-> [x \in Accts |-> IF x = "alice" THEN 2 ELSE 0]], collector |-> "col0", owner |-> "owner0"]
 Init == st = InitState
 Next == \E a \in Acts(st) : st' = Apply(st, a).post
